@@ -111,6 +111,9 @@ class _SourceFileParams(_FileParamsBase):
     def reset(self) -> None:
         self.empty_file = False
         super().reset()
+        # Same value as a freshly constructed block (see empty()), the file size is compared
+        # against integers for empty files.
+        self.file_size = 0
 
 
 @dataclass
